@@ -560,6 +560,10 @@ def main(argv):
             for v in (rest or ['plain', 'asan']):
                 build(v)
             return 0
+        if cmd == 'manifest':
+            import manifestgen
+            log('wrote ' + manifestgen.generate())
+            return 0
         if cmd == 'replay':
             return cmd_replay(rest[0])
         if cmd == 'selftest':
